@@ -69,6 +69,9 @@ class ModuleInfo:
         self.src = src
         self.lines = src.splitlines()
         self.tree = ast.parse(src, filename=path)
+        if not os.environ.get("VERIF_NOCANON"):
+            from .canon import canonical
+            self.tree = canonical(self.tree)
         self.funcs = {}  # qual -> FuncInfo
         self.classes = {}  # qual -> ClassInfo
         self.assigns = {}  # module-level name -> value node (last)
